@@ -20,6 +20,8 @@ package requestmanager
 //@        let g := rm.maxLinksPerRequest :: let r := ipr.maxLinks ::
 //@        let eff := ite(g == 0, r, ite(r != 0 && r < g, r, g)) ::
 //@        (eff == 0 <==> self.Budget == nil) && (eff != 0 ==> self.Budget.LinkBudget == eff)
+//@   -- C22: the traversal gets the manager's own panic callback
+//@   callsite TraversalBuilder.Start: assert self.PanicCallback == rm.panicCallback
 
 //@ -- ============================ C09 / C04: the message handlers of the request manager ============================
 //@ -- Every step that has an effect on a request (hook call, message sent on its behalf, cancellation, delivery of
